@@ -36,6 +36,28 @@ structure Entity where
   attrs : List Attr
   deriving DecidableEq, Repr
 
+/-- an aggregate type expression as `process_aggregate` writes it: `KIND(lo,hi,` + the base + `)`; the base is either
+another aggregate (written recursively, **without** a `scope=` argument at this level) or a type name, written
+`'name', scope = schema_scope` — only the innermost level carries the scope in which the name is looked up -/
+inductive AggT
+  | leaf (base : String)
+  | agg (kind : String) (lo : Int) (hi : Option Int) (inner : AggT)
+  deriving DecidableEq, Repr
+
+def AggT.mapLeaf (f : String → String) : AggT → AggT
+  | .leaf b => .leaf (f b)
+  | .agg k lo hi i => .agg k lo hi (i.mapLeaf f)
+
+/-- the nesting levels that are given a `scope=` argument (outermost = 0): exactly the innermost one -/
+def AggT.scopedLevels : AggT → List Nat
+  | .leaf _ => []
+  | .agg _ _ _ (.leaf _) => [0]
+  | .agg _ _ _ i => i.scopedLevels.map (· + 1)
+
+def AggT.depth : AggT → Nat
+  | .leaf _ => 0
+  | .agg _ _ _ i => i.depth + 1
+
 /-- underlying type of a defined type, as far as the emitted definition shows it -/
 inductive TBody
   | simple (py : String)                 -- `class t(REAL): pass` ; py = REAL INTEGER STRING BINARY NUMBER LOGICAL
@@ -43,7 +65,7 @@ inductive TBody
   | defined (ref : String)               -- `class t(ref): pass`
   | enum (items : List String)           -- `t = ENUMERATION('t','a b c ')`
   | select (members : List String)       -- `t = SELECT('a','b',scope = schema_scope)`
-  | aggregate (kind : String) (lo : Int) (hi : Option Int) (base : String)   -- `t = LIST(lo,hi,'base', scope = …)`
+  | aggregate (a : AggT)                 -- `t = LIST(lo,hi,'base', scope = …)`, `t = ARRAY(lo,hi,LIST(lo,hi,'base', scope = …))`
   deriving DecidableEq, Repr
 
 structure TypeDef where
@@ -165,7 +187,7 @@ def typeOf (t : TypeDef) : TypeDef :=
       | .enum items => .enum (items.map pyName)
       | .select ms => .select (ms.map pyName)
       | .defined r => .defined (pyName r)
-      | .aggregate k lo hi b => .aggregate k lo hi (pyName b)
+      | .aggregate a => .aggregate (a.mapLeaf pyName)
       | b => b }
 
 structure PyModule where
